@@ -34,12 +34,15 @@ import (
 	"github.com/fasthttp/router"
 	"github.com/siglens/siglens/pkg/config"
 	"github.com/siglens/siglens/pkg/dashboards"
+	eswriter "github.com/siglens/siglens/pkg/es/writer"
 	"github.com/siglens/siglens/pkg/lookups"
 	"github.com/siglens/siglens/pkg/scroll"
+	"github.com/siglens/siglens/pkg/segment/memory/limit"
 	"github.com/siglens/siglens/pkg/segment/query/processor"
+	"github.com/siglens/siglens/pkg/segment/writer"
 	"github.com/siglens/siglens/pkg/segment/writer/metrics"
-	"github.com/siglens/siglens/pkg/segment/writer/suffix"
 	serverutils "github.com/siglens/siglens/pkg/server/utils"
+	"github.com/siglens/siglens/pkg/utils"
 	vtable "github.com/siglens/siglens/pkg/virtualtable"
 	"github.com/valyala/fasthttp"
 )
@@ -62,7 +65,7 @@ const c19SID = "0-0-7"
 const c19MID = "0"
 
 var c19PureBuilders = []string{"baseSegDir", "baseVTableDir", "suffixFile", "tagsTreeFile", "dashboardDetails", "scrollResults"}
-var c19RealBuilders = []string{"lookupUpload", "lookupGet", "lookupDelete", "inputlookup", "aliasFile", "mappingFile", "suffixFile", "tagsTreeFile"}
+var c19RealBuilders = []string{"lookupUpload", "lookupGet", "lookupDelete", "inputlookup", "aliasFile", "mappingFile", "suffixFile", "baseSegDir", "tagsTreeFile"}
 
 // ---------------------------------------------------------------- generator
 
@@ -147,10 +150,10 @@ func c19RealName(r *rand.Rand, b string) string {
 	if r.Intn(12) == 0 {
 		return c19Pick(r, []string{"", ".", "..", "/", "a/", "../", "a", "x.csv", "../x.csv", "../../x.csv", "../../../x.csv", "../../../../x.csv", "../../../../../x.csv"})
 	}
-	joinBased := b == "lookupUpload" || b == "inputlookup" || b == "suffixFile"
+	joinBased := b == "lookupUpload" || b == "inputlookup" || b == "suffixFile" || b == "baseSegDir"
 	var sb strings.Builder
 	// ups needed to reach the data dir from the directory the name is appended to
-	depth := map[string]int{"lookupUpload": 1, "inputlookup": 1, "lookupGet": 1, "lookupDelete": 1, "aliasFile": 4, "mappingFile": 4, "suffixFile": 2, "tagsTreeFile": 5}[b]
+	depth := map[string]int{"lookupUpload": 1, "inputlookup": 1, "lookupGet": 1, "lookupDelete": 1, "aliasFile": 4, "mappingFile": 4, "suffixFile": 2, "baseSegDir": 2, "tagsTreeFile": 5}[b]
 	k := r.Intn(depth + 1)
 	if r.Intn(2) == 0 {
 		k = depth + r.Intn(3) // data dir itself, one above, sandbox root
@@ -270,6 +273,7 @@ func c19Env() *c19Sandbox {
 		exitHooks = append(exitHooks, func() { os.RemoveAll(root) })
 		config.InitializeTestingConfig(s.data)
 		config.SetHostIDForTestOnly("H")
+		limit.InitMemoryLimiter()
 		if err := vtable.InitVTable(serverutils.GetMyIds); err != nil {
 			panic(err)
 		}
@@ -501,13 +505,28 @@ func (s *c19Sandbox) checkBuilt(b, v, p string) []PropFail {
 func c19Pure(s *c19Sandbox, b, v string) (string, []PropFail, []string, bool) {
 	var p string
 	switch b {
+	// The three index-name builders and the tags-tree builder validate nothing themselves: the name is checked where it
+	// enters (ProcessIndexRequestPle / AddVirtualTable resp. EncodeDatapoint). Here the gate is the REAL validator
+	// function those entry points call; that the entry points do call it is checked by the `preal` operations.
 	case "baseSegDir":
+		if !vtable.IsValidIndexName(v) {
+			return "reject", nil, []string{"reject", "gate:validator"}, true
+		}
 		p = config.GetBaseSegDir(c19SID, v, 0)
 	case "baseVTableDir":
+		if !vtable.IsValidIndexName(v) {
+			return "reject", nil, []string{"reject", "gate:validator"}, true
+		}
 		p = config.GetBaseVTableDir(c19SID, v)
 	case "suffixFile":
+		if !vtable.IsValidIndexName(v) {
+			return "reject", nil, []string{"reject", "gate:validator"}, true
+		}
 		p = config.GetSuffixFile(v, c19SID)
 	case "tagsTreeFile":
+		if !metrics.VerifTagKeyAccepted(v) {
+			return "reject", nil, []string{"reject", "gate:validator"}, true
+		}
 		p = metrics.VerifTagsTreeFileName(v, metrics.GetFinalTagsTreeDir(c19MID, 0))
 	case "dashboardDetails":
 		var got string
@@ -558,7 +577,7 @@ func c19Real(s *c19Sandbox, b, v string) (string, []PropFail, []string, bool) {
 		target, concat = vtable.VTableAliasesDir+v+".json", true
 	case "mappingFile":
 		target, concat = vtable.VTableMappingsDir+v+".json", true
-	case "suffixFile":
+	case "suffixFile", "baseSegDir": // same depth below the data dir: <data>/H/suffix/<v>/… and <data>/H/final/<v>/…
 		target, concat = config.GetSuffixFile(v, c19SID), true
 	case "tagsTreeFile":
 		target, concat = metrics.GetFinalTagsTreeDir(c19MID, 0)+v, true
@@ -569,10 +588,22 @@ func c19Real(s *c19Sandbox, b, v string) (string, []PropFail, []string, bool) {
 		return "bad-op", nil, nil, true
 	}
 	if !s.inRoot(target) {
-		if b == "inputlookup" { // read-only operation: let the real code say whether it rejects the name
-			if _, err := processor.VerifInputLookup(v, "c19m"); err != nil && strings.Contains(err.Error(), "Only .csv and .csv.gz formats") {
-				return "reject", nil, []string{"reject"}, true
-			}
+		// outside the sandbox the operation itself is never executed; whether the name is refused is asked of the real
+		// validator the operation calls (that it calls it is exercised inside the sandbox)
+		refused := false
+		switch b {
+		case "inputlookup": // read-only operation: the real code itself says whether it rejects the name
+			_, err := processor.VerifInputLookup(v, "c19m")
+			refused = err != nil && (strings.Contains(err.Error(), "Only .csv and .csv.gz formats") || strings.Contains(err.Error(), "Invalid lookup file name"))
+		case "lookupUpload":
+			refused = !utils.IsSimpleFileName(v)
+		case "aliasFile", "mappingFile", "suffixFile", "baseSegDir":
+			refused = !vtable.IsValidIndexName(v)
+		case "tagsTreeFile":
+			refused = !metrics.VerifTagKeyAccepted(v)
+		}
+		if refused {
+			return "reject", nil, []string{"reject", "gate:validator"}, true
 		}
 		return "unsafe", nil, []string{"unsafe"}, true
 	}
@@ -630,6 +661,8 @@ func c19Real(s *c19Sandbox, b, v string) (string, []PropFail, []string, bool) {
 	}
 	targetWasDir := false
 	rejected := false
+	canonFrom, canonTo := "", ""  // server-generated id in the observed path → the id the model uses
+	var canonRe *regexp.Regexp    // server-chosen shard/suffix directories → the ones the model uses
 	var effects []c19Change // files the real code touched
 	var readPath string     // file the real code demonstrably read
 	run := func(op func()) {
@@ -696,7 +729,7 @@ func c19Real(s *c19Sandbox, b, v string) (string, []PropFail, []string, bool) {
 		var vals []string
 		var err error
 		run(func() { vals, err = processor.VerifInputLookup(v, "c19m") })
-		if err != nil && strings.Contains(err.Error(), "Only .csv and .csv.gz formats") {
+		if err != nil && (strings.Contains(err.Error(), "Only .csv and .csv.gz formats") || strings.Contains(err.Error(), "Invalid lookup file name")) {
 			rejected = true
 		}
 		readPath = whichRead(func(m string) bool {
@@ -711,7 +744,7 @@ func c19Real(s *c19Sandbox, b, v string) (string, []PropFail, []string, bool) {
 	case "aliasFile":
 		var err error
 		run(func() { err = vtable.AddAliases(v, []string{mk}, 0) })
-		if err != nil && err.Error() == "indexName is null" {
+		if err != nil && (err.Error() == "indexName is null" || err.Error() == "indexName is invalid") {
 			rejected = true
 		}
 		effects = c19Filter(effects, func(c c19Change) bool { return c19FileContains(c.path, mk) })
@@ -729,7 +762,9 @@ func c19Real(s *c19Sandbox, b, v string) (string, []PropFail, []string, bool) {
 		run(func() {
 			invoked, _ = s.dispatch("mappingFile", v, func(_ *fasthttp.RequestCtx, param string) {
 				m := `{"marker":"` + mk + `"}`
-				_ = vtable.AddMapping(&param, &m, 0)
+				if err := vtable.AddMapping(&param, &m, 0); err != nil && strings.Contains(err.Error(), "invalid index name") {
+					rejected = true
+				}
 			})
 		})
 		tags = append(tags, "route:"+s.routeSrc["mappingFile"])
@@ -737,27 +772,54 @@ func c19Real(s *c19Sandbox, b, v string) (string, []PropFail, []string, bool) {
 			rejected = true
 		}
 		effects = c19Filter(effects, func(c c19Change) bool { return c19FileContains(c.path, mk) })
-	case "suffixFile":
-		run(func() { _, _ = suffix.GetNextSuffix(c19SID, v) })
-		effects = c19Filter(effects, func(c c19Change) bool { return filepath.Base(c.path) == c19SID+".suffix" })
+	case "suffixFile", "baseSegDir":
+		// the ingest entry point shared by all protocols, with no events: it registers the index, picks the stream,
+		// creates the segment store = suffix file + segment base directory (first file operations of a new index)
+		sid := fmt.Sprintf("0-0-%d", 1000+s.counter) // a fresh stream id each time = a fresh segment store
+		canonFrom, canonTo = sid, c19SID
+		var err error
+		var stackBuf [4096]byte
+		run(func() {
+			err = eswriter.ProcessIndexRequestPle(1700000000000, v, false, map[string]string{}, 0, 0,
+				map[string]string{v: sid}, map[uint64]string{}, stackBuf[:], nil)
+		})
+		if err != nil && strings.Contains(err.Error(), "invalid index name") {
+			rejected = true
+		}
+		if s.inRoot(config.GetDataPath() + config.GetHostID() + "/active/" + v) {
+			writer.DeleteVirtualTableSegStore(v)
+		}
+		if b == "suffixFile" {
+			effects = c19Filter(effects, func(c c19Change) bool { return c.kind == "created" && filepath.Base(c.path) == sid+".suffix" })
+		} else {
+			effects = c19Filter(effects, func(c c19Change) bool {
+				return c.kind == "created" && filepath.Base(c.path) == "0" && filepath.Base(filepath.Dir(c.path)) == sid
+			})
+		}
 	case "tagsTreeFile":
+		// a datapoint with this tag key through the entry point shared by all metrics protocols, then a flush
+		var encErr error
 		run(func() {
 			key, _ := json.Marshal(v)
 			payload := []byte(`{"metric":"m","tags":{` + string(key) + `:"` + mk + `"},"timestamp":1700000000,"value":1}`)
 			th := metrics.GetTagsHolder()
-			if _, _, _, err := metrics.ExtractOTSDBPayload(payload, th); err != nil {
-				return
-			}
-			tth, err := metrics.InitTagsTreeHolder(c19MID)
+			mName, dp, ts, err := metrics.ExtractOTSDBPayload(payload, th)
 			if err != nil {
+				encErr = err
 				return
 			}
-			if err := tth.AddTagsForTSID([]byte("m"), th, 1); err != nil {
+			if encErr = metrics.EncodeDatapoint(mName, th, dp, ts, uint64(len(payload)), 0); encErr != nil {
 				return
 			}
-			_ = tth.EncodeTagsTreeHolder()
+			metrics.ForceFlushMetricsBlock()
 		})
-		effects = c19Filter(effects, func(c c19Change) bool { return c.kind != "deleted" && c19FileContains(c.path, mk) })
+		if encErr != nil && strings.Contains(encErr.Error(), "invalid tag key") {
+			rejected = true
+		}
+		effects = c19Filter(effects, func(c c19Change) bool {
+			return c.kind != "deleted" && !strings.Contains(c.path, "/wal-ts/") && c19FileContains(c.path, mk)
+		})
+		canonRe = c19TthRe
 	}
 	if rejected {
 		return "reject", nil, append(tags, "reject"), true
@@ -788,7 +850,14 @@ func c19Real(s *c19Sandbox, b, v string) (string, []PropFail, []string, bool) {
 		fails = append(fails, PropFail{Sig: "path-escape/" + b, Msg: fmt.Sprintf("real operation %s with client value %q %s the file %q (relative to the data dir), outside the data dir — confirmed on the file system", b, v, kind, rel)})
 		tags = append(tags, "exploit-confirmed")
 	}
-	return s.acceptLine(touched), fails, tags, true
+	printed := touched
+	if canonFrom != "" {
+		printed = strings.Replace(printed, canonFrom, canonTo, 1)
+	}
+	if canonRe != nil {
+		printed = canonRe.ReplaceAllString(printed, "${1}"+c19MID+"/0/")
+	}
+	return s.acceptLine(printed), fails, tags, true
 }
 
 // other spellings a name could be turned into by decoding before it is joined
@@ -811,6 +880,9 @@ func c19Variants(v string) []string {
 	add(strings.TrimSpace(v))
 	return res
 }
+
+// <data>/H/final/tth/<shard>/<suffix>/ — shard and suffix are chosen by the server
+var c19TthRe = regexp.MustCompile(`^(.*/H/final/tth/)\d+/\d+/`)
 
 func c19Filter(l []c19Change, keep func(c19Change) bool) []c19Change {
 	var res []c19Change
